@@ -107,7 +107,11 @@ def run(rep, tier, seed):
         bb = [int(o.split()[3]) for o in outs]
         pc = [b / k for b, k in zip(bb, ks)]
         percopy["%s/%s" % (d[:20].replace("\n", "\\n"), fmt)] = [round(x) for x in pc]
-        if pc[1] > 1.5 * pc[0] + 50:
+        # a document may ask for output that is itself more than proportional to k (k tables of contents, each listing the headings
+        # of all k copies): work proportional to what has to be written is not a violation, so the growth of the output per copy is allowed for
+        outpc = [max(1, int(o.split()[2])) / k for o, k in zip(outs, ks)]
+        allowed = max(1.0, outpc[1] / outpc[0])
+        if pc[1] > 1.5 * allowed * pc[0] + 50:
             bad.append(("superlinear-copies", "executed basic blocks per copy grow with the number of copies: %s per copy for k=%s of %r (%s)" % ([round(x) for x in pc], list(ks), d[:60], fmt),
                         dict(doc=d[:300], ks=list(ks), basic_blocks=bb, fmt=fmt)))
     rep.cov["copies_measured_in_basic_blocks"] = ncopies
